@@ -4,6 +4,8 @@ from common import f2b
 
 
 def py_round(x):
+    if x != x or x in (float("inf"), float("-inf")):
+        return x            # round() raises on non-finite floats; the DSL is total there (as the Lean twin)
     return float(round(x))
 
 
